@@ -1,8 +1,10 @@
 package cli
 
 import (
+	"encoding/json"
 	"fmt"
 	"io"
+	"math/big"
 	"strings"
 
 	"github.com/itchyny/go-yaml"
@@ -43,8 +45,31 @@ func (m *yamlMarshaler) marshal(v any, w io.Writer) error {
 	} else {
 		enc.SetIndent(2)
 	}
-	if err := enc.Encode(v); err != nil {
+	if err := enc.Encode(yamlValue(v)); err != nil {
 		return err
 	}
 	return enc.Close()
+}
+
+// yamlValue converts *big.Int to json.Number, which the YAML encoder writes
+// as a plain integer (it would write a *big.Int as a quoted string).
+func yamlValue(v any) any {
+	switch v := v.(type) {
+	case *big.Int:
+		return json.Number(v.String())
+	case []any:
+		w := make([]any, len(v))
+		for i, x := range v {
+			w[i] = yamlValue(x)
+		}
+		return w
+	case map[string]any:
+		w := make(map[string]any, len(v))
+		for k, x := range v {
+			w[k] = yamlValue(x)
+		}
+		return w
+	default:
+		return v
+	}
 }
